@@ -1,0 +1,75 @@
+//go:build verif
+
+package elliptic
+
+// Machine-checked contracts for this package (read by /verif/govc; comment-only, compiled only
+// with -tags verif). See /verif/DESIGN.md.
+//
+// The curve behind elliptic.Curve is the abstract prime-order group of
+// /verif/contracts/deps/elliptic.spec: gmulx/gmuly are the affine coordinates of [k]G, gaddx/gaddy of
+// a group sum, (0,0) the identity, curveN the group order. A PrivateKey is valid when 0 < K < N; its
+// public key is [K]G.
+
+//@ props C08 C02
+
+//@ spec validpriv(p *PrivateKey) bool = p != nil && p.K != nil && 0 < *p.K && *p.K < elliptic.curveN(p.Curve)
+//@ spec validpub(p *PublicKey) bool = p != nil && p.X != nil && p.Y != nil
+
+//@ func (c Curve) NewPrivateKey(buf []byte) (r slip10.Key, err error)
+//@   panics  never
+//@   ensures isnil(err) == (0 < be(buf) && be(buf) < elliptic.curveN(c.Curve))
+//@   ensures implies(isnil(err), typeis(r, *PrivateKey) && r.(*PrivateKey).K != nil && *r.(*PrivateKey).K == be(buf) && r.(*PrivateKey).Curve == c.Curve)
+//@   ensures implies(!isnil(err), isnil(r) && is(err, slip10.ErrInvalidKey))
+
+//@ func (p *PrivateKey) Bytes() (r []byte)
+//@   requires validpriv(p)
+//@   use elliptic.grp_order(p.Curve)
+//@   panics  never
+//@   ensures len(r) == 32 && be(r) == *p.K
+//@   ensures *p.K == old(*p.K)
+
+//@ func (p *PrivateKey) Public() (r slip10.Key)
+//@   requires validpriv(p)
+//@   panics  never
+//@   ensures typeis(r, *PublicKey) && validpub(r.(*PublicKey)) && r.(*PublicKey).Curve == p.Curve
+//@   ensures *r.(*PublicKey).X == elliptic.gmulx(p.Curve, *p.K) && *r.(*PublicKey).Y == elliptic.gmuly(p.Curve, *p.K)
+
+//@ func (p *PrivateKey) Shift(buf []byte) (r slip10.Key, err error)
+//@   requires validpriv(p)
+//@   panics  never
+//@   ensures isnil(err) == (be(buf) < elliptic.curveN(p.Curve) && (be(buf) + *p.K) % elliptic.curveN(p.Curve) != 0)
+//@   ensures implies(isnil(err), typeis(r, *PrivateKey) && validpriv(r.(*PrivateKey)) && *r.(*PrivateKey).K == (be(buf) + *p.K) % elliptic.curveN(p.Curve) && r.(*PrivateKey).Curve == p.Curve)
+//@   ensures implies(!isnil(err), isnil(r) && is(err, slip10.ErrInvalidKey))
+//@   ensures *p.K == old(*p.K)
+
+//@ func (p *PublicKey) Bytes() (r []byte)
+//@   requires validpub(p)
+//@   panics  never
+//@   ensures len(r) == 33 && forall(i, 0, 33, r[i] == elliptic.compb(p.Curve, *p.X, *p.Y, i))
+
+//@ func (p *PublicKey) Public() (r slip10.Key)
+//@   panics  never
+//@   ensures typeis(r, *PublicKey) && sameptr(r.(*PublicKey), p)
+
+//@ func (p *PublicKey) Shift(bytes []byte) (r slip10.Key, err error)
+//@   requires validpub(p)
+//@   panics  never
+//@   ensures isnil(err) == (be(bytes) < elliptic.curveN(p.Curve) && !(elliptic.gaddx(p.Curve, *p.X, *p.Y, elliptic.gmulx(p.Curve, be(bytes)), elliptic.gmuly(p.Curve, be(bytes))) == 0 && elliptic.gaddy(p.Curve, *p.X, *p.Y, elliptic.gmulx(p.Curve, be(bytes)), elliptic.gmuly(p.Curve, be(bytes))) == 0))
+//@   ensures implies(isnil(err), typeis(r, *PublicKey) && validpub(r.(*PublicKey)) && r.(*PublicKey).Curve == p.Curve)
+//@   ensures implies(isnil(err), *r.(*PublicKey).X == elliptic.gaddx(p.Curve, *p.X, *p.Y, elliptic.gmulx(p.Curve, be(bytes)), elliptic.gmuly(p.Curve, be(bytes))) && *r.(*PublicKey).Y == elliptic.gaddy(p.Curve, *p.X, *p.Y, elliptic.gmulx(p.Curve, be(bytes)), elliptic.gmuly(p.Curve, be(bytes))))
+//@   ensures implies(!isnil(err), isnil(r) && is(err, slip10.ErrInvalidKey))
+
+// The commutation at the heart of C08: for a valid private scalar k and any shift s < N, the private
+// shift fails exactly when the public shift does, and otherwise the public key of the shifted private
+// key is the shifted public key.
+//@ lemma shift_commute(c elliptic.Curve, k mathint, s mathint)
+//@   props C08
+//@   theory curvegroup
+//@   use elliptic.grp_order(c)
+//@   use elliptic.grp_add_mul(c, k, s)
+//@   use elliptic.grp_mul_mod(c, k+s)
+//@   use elliptic.grp_kernel(c, k+s)
+//@   requires 0 < k && k < elliptic.curveN(c) && 0 <= s && s < elliptic.curveN(c)
+//@   ensures  ((s + k) % elliptic.curveN(c) == 0) == (elliptic.gaddx(c, elliptic.gmulx(c, k), elliptic.gmuly(c, k), elliptic.gmulx(c, s), elliptic.gmuly(c, s)) == 0 && elliptic.gaddy(c, elliptic.gmulx(c, k), elliptic.gmuly(c, k), elliptic.gmulx(c, s), elliptic.gmuly(c, s)) == 0)
+//@   ensures  elliptic.gmulx(c, (s + k) % elliptic.curveN(c)) == elliptic.gaddx(c, elliptic.gmulx(c, k), elliptic.gmuly(c, k), elliptic.gmulx(c, s), elliptic.gmuly(c, s))
+//@   ensures  elliptic.gmuly(c, (s + k) % elliptic.curveN(c)) == elliptic.gaddy(c, elliptic.gmulx(c, k), elliptic.gmuly(c, k), elliptic.gmulx(c, s), elliptic.gmuly(c, s))
